@@ -210,6 +210,24 @@ def run_case(case, wd):
     res["id_save_load"] = r3.__xpm__.full_identifier.all.hex()
     res["raw_save_load"] = r3.__xpm__.raw_identifier.all.hex()
     res["defs_save"] = canon_defs(b, json.load(open(d / "definition.json"))["objects"])
+    # path 6: the state is loaded by a LATER version of the code: the class declares another value for its constant
+    # (K1 -> K2, same type identifier) or has been extended with defaulted / ignored parameters (V1 -> V2).  The
+    # loaded configuration stands for what was saved: it keeps its stored constant and its identifier
+    try:
+        st6 = json.loads(json.dumps(st))
+        changed = 0
+        for o in st6["objects"]:
+            if o.get("module") == "vpk.schema" and o.get("type") in ("K1", "V1"):
+                o["type"] = {"K1": "K2", "V1": "V2"}[o["type"]]
+                o["typename"] = "vpk.schema." + o["type"]
+                changed += 1
+        res["later_code_changed"] = changed
+        if changed:
+            objs6 = ConfigInformation.load_objects(st6["objects"], as_instance=False, discard_id=True)
+            r6 = ConfigInformation._objectFromParameters(st6["data"], objs6)
+            res["id_later_code"] = r6.__xpm__.full_identifier.all.hex()
+    except Exception as e:  # noqa
+        res["later_code_error"] = type(e).__name__ + ":" + str(e)[:200]
     # path 4: the parameter file of a job (outputjson): definitions and tags
     try:
         import io
